@@ -108,6 +108,9 @@ def relabelled_reaction(reaction):
     return ReactionInfo(transitions=out, formalism=reaction.formalism)
 
 
+_BWC: dict = {}
+
+
 class World:
     def __init__(self, reaction):
         self.reaction = reaction
@@ -156,7 +159,11 @@ class World:
                 d = self.naming_defaults.setdefault((b, attr), getattr(bl.naming, attr))
                 setattr(bl.naming, attr, (not d) if act[3] else d)
         elif name == "Assign":
-            fn = {"none": create_non_dynamic, "bw": create_relativistic_breit_wigner, "bwff": create_relativistic_breit_wigner_with_ff}[act[3]]
+            from ampform.dynamics.builder import RelativisticBreitWignerBuilder, create_analytic_breit_wigner
+
+            # "bwc": the flag combination no convenience function offers (form factor, constant width); one builder object per process
+            fn = {"none": create_non_dynamic, "bw": create_relativistic_breit_wigner, "bwff": create_relativistic_breit_wigner_with_ff,
+                  "bwa": create_analytic_breit_wigner, "bwc": _BWC.setdefault("b", RelativisticBreitWignerBuilder(form_factor=True))}[act[3]]
             rn = self.real_name(act[2])
             if rn is not None:
                 bl.dynamics.assign(rn, fn)
